@@ -416,6 +416,23 @@ func inlineSpec(tag string) interface{} {
 	return x
 }
 
+// nanSpec: a machine whose action computes n/n for a message {"nan":n}: for n = 0 that is NaN, a number that is not JSON
+// (the action fails, or the machine's state could never be reported or stored).
+func nanSpec() interface{} {
+	sp := &core.Spec{
+		Name: "nan",
+		Nodes: map[string]*core.Node{
+			"start": {Branches: &core.Branches{Type: "message", Branches: []*core.Branch{{Pattern: map[string]interface{}{"nan": "?n"}, Target: "calc"}}}},
+			"calc": {ActionSource: &core.ActionSource{Interpreter: "ecmascript", Source: "var bs = _.bindings; var n = bs['?n']; delete bs['?n']; bs.last = n; bs.unit = n / n; return bs;"},
+				Branches: &core.Branches{Type: "bindings", Branches: []*core.Branch{{Target: "start"}}}},
+		},
+	}
+	js, _ := json.Marshal(&crew.SpecSource{Inline: sp})
+	var x interface{}
+	json.Unmarshal(js, &x)
+	return x
+}
+
 // brokenSpec: a spec source whose action does not compile
 func brokenSpec() interface{} {
 	return map[string]interface{}{"inline": map[string]interface{}{"name": "broken", "nodes": map[string]interface{}{
@@ -457,7 +474,16 @@ func genHist(id int) O {
 		return op
 	}
 	var creates []map[string]interface{}
+	withNaN := rng.Intn(5) == 0
+	if withNaN {
+		h.Msgs = append(h.Msgs, map[string]interface{}{"id": newID("op"), "to": "captain", "update": map[string]interface{}{"z": map[string]interface{}{"spec": nanSpec()}}})
+	}
 	for i, k := 0, 2+rng.Intn(4); i < k; i++ {
+		if withNaN && rng.Intn(3) == 0 {
+			// (unrouted: the recorders see it, too, and their changes have to be reported whatever becomes of z)
+			h.Msgs = append(h.Msgs, map[string]interface{}{"id": newID("m"), "nan": float64(rng.Intn(2))})
+			continue
+		}
 		if len(creates) > 0 && rng.Intn(5) == 0 {
 			// delete a machine and, in a later message, create it again exactly as it was created before
 			prev := creates[rng.Intn(len(creates))]
